@@ -1,4 +1,5 @@
 import Driver.Pure
+import Driver.Ctl
 /-
   ftpdriver: one line in, one line out.
 
@@ -16,7 +17,7 @@ def handleLine (line : String) : String :=
   | [lhs, impl] =>
     match lhs.splitOn " " with
     | op :: args =>
-      match pureOp op args impl with
+      match (pureOp op args impl <|> ctlOp op args impl) with
       | some v =>
         let tags := ",".intercalate v.tags
         match v.viol with
